@@ -52,18 +52,18 @@ META = dict(
                           'open_branches_without_mark': 10000,
                           'nodes_sentence': 25000, 'nodes_world': 18000, 'nodes_designation': 22000, 'nodes_access': 1900,
                           'nodes_closure': 1900, 'nodes_quit': 150, 'nodes_ellipsis': 1600, 'logics': 57},
-                'thorough': {'renderings': 800000, 'tableaux': 50000, 'tableaux_valid': 8000, 'tableaux_invalid': 15000,
-                             'tableaux_premature': 12000, 'determinism_checks': 500000, 'text_oracle_checks': 150000,
-                             'text_branches_checked': 400000, 'text_segments_checked': 1000000, 'closed_branch_marks': 150000,
-                             'open_branches_without_mark': 150000,
-                             'nodes_sentence': 1000000, 'nodes_world': 300000, 'nodes_designation': 400000,
-                             'nodes_access': 40000, 'nodes_closure': 60000, 'nodes_quit': 500, 'nodes_ellipsis': 8000, 'logics': 57}},
-    budget=dict(quick=240, thorough=1800),
-    unit_timeout=dict(quick=200, thorough=1500),
+                'thorough': {'renderings': 500000, 'tableaux': 30000, 'tableaux_valid': 5000, 'tableaux_invalid': 15000,
+                             'tableaux_premature': 6000, 'determinism_checks': 350000, 'text_oracle_checks': 60000,
+                             'text_branches_checked': 250000, 'text_segments_checked': 1000000, 'closed_branch_marks': 100000,
+                             'open_branches_without_mark': 120000,
+                             'nodes_sentence': 450000, 'nodes_world': 350000, 'nodes_designation': 450000,
+                             'nodes_access': 25000, 'nodes_closure': 55000, 'nodes_quit': 1000, 'nodes_ellipsis': 2500, 'logics': 57}},
+    budget=dict(quick=600, thorough=2700),
+    unit_timeout=dict(quick=400, thorough=1500),
 )
 
 NARGS = dict(quick=32, thorough=None)          # arguments per logic (None: all generated)
-NRANDOM = dict(quick=30, thorough=420)
+NRANDOM = dict(quick=30, thorough=330)
 RULE_ROUNDS = dict(quick=1, thorough=2)
 CAP = dict(quick=120, thorough=300)
 SPLIT = dict(quick=1, thorough=4)
@@ -73,8 +73,11 @@ RENDER_WATCHDOG = 60                            # s of wall per rendering; firin
 
 
 def units(tier, seed):
-    return [dict(name=f'render:{n}:{k}', logic=n, part=k, parts=SPLIT[tier])
-            for n in lib.STATIC_LOGICS for k in range(SPLIT[tier])]
+    def parts(n):
+        return SPLIT[tier] * (2 if tier == 'thorough' and 'K3W' in n else 1)   # the weak-Kleene families build the largest trees
+    us = [dict(name=f'render:{n}:{k}', logic=n, part=k, parts=parts(n)) for n in lib.STATIC_LOGICS for k in range(parts(n))]
+    us.sort(key=lambda u: ('K3W' not in u['logic'], 'Q' not in u['logic']))      # longest units first (stable)
+    return us
 
 
 # ------------------------------------------------------------------ writer configurations
